@@ -1,5 +1,6 @@
 import ProcSim.Model.Sim
 import ProcSim.Model.Loader
+import ProcSim.Model.Program
 /-!
 Canonical, `decide`-friendly form of a simulation outcome over `Nat` names — used by the generated "kernel samples"
 (checks/kernel_samples.py): the harness takes inputs and the *implementation's* outputs, maps names to numbers
@@ -46,4 +47,13 @@ def loadCanonNat (d : Loader.Desc Nat) : Nat × List (List Nat) :=
   | .ok p => (0, procCanonNat p)
   | .error e => (classCode e.cls, [])
 
+end ProcSim
+
+namespace ProcSim
+open Program in
+/-- decidable comparison of a parse result with an expected one (`Except` has no `DecidableEq` in core) -/
+def parseResultEq : Except Program.ParseError (List Program.ProgInstr) → Except Program.ParseError (List Program.ProgInstr) → Bool
+  | .ok a, .ok b => decide (a = b)
+  | .error e, .error f => decide (e = f)
+  | _, _ => false
 end ProcSim
